@@ -4,17 +4,22 @@
 -/
 import YashModel.Syntax.ParserLemmas
 import YashModel.Syntax.Structure
+import YashModel.Syntax.EofLemmas
 namespace YashModel.Syntax
 
 /-! ## Layer 0: what may follow a command -/
 
-/-- the text after a command: an optional blank and a terminator character (`;`, `&`, `|`, `)`, newline) -/
+/-- the text after a command: the end of input, or an optional blank and a terminator character
+    (`;`, `&`, `|`, `)`, newline) -/
 def TailOk (tail : List Char) : Prop :=
+  tail = [] ∨
   ∃ (sp : Bool) (e : Char) (rest : List Char), tail = (if sp then [' '] else []) ++ e :: rest ∧ TermOk e
 
 theorem lexToken_tail (tail : List Char) (h : TailOk tail) :
-    ∃ o r, lexToken tail = some (⟨[], .op o⟩, r) ∧ o.plain = true := by
-  obtain ⟨sp, e, rest, rfl, he⟩ := h
+    tail = [] ∨ ∃ o r, lexToken tail = some (⟨[], .op o⟩, r) ∧ o.plain = true := by
+  rcases h with rfl | ⟨sp, e, rest, rfl, he⟩
+  · exact Or.inl rfl
+  right
   obtain ⟨h1, h2, h3⟩ := term_facts e he
   obtain ⟨x, hx, hp⟩ := lexOperator_term e he rest
   have hk := skipLC_cons_ne e rest h1
@@ -31,19 +36,21 @@ theorem lexToken_tail (tail : List Char) (h : TailOk tail) :
   rw [hsb, skipComment_id e rest hk h3, hx]
 
 theorem nextOk_tail (tail : List Char) (h : TailOk tail) : NextOk tail := by
-  obtain ⟨sp, e, rest, rfl, he⟩ := h
+  rcases h with rfl | ⟨sp, e, rest, rfl, he⟩
+  · exact ⟨Or.inl rfl, rfl⟩
   have hE : Delim.token.Ends e := by
     rcases he with h | h | h | h | h <;> subst h <;> exact ⟨by decide, by decide⟩
   have hA : nextIsAngle (e :: rest) = false := by
     rcases he with h | h | h | h | h <;> subst h <;> simp [nextIsAngle, skipLC_cons_ne]
   cases sp with
-  | false => exact ⟨⟨e, rest, by simp, hE⟩, by simpa using hA⟩
+  | false => exact ⟨Or.inr ⟨e, rest, by simp, hE⟩, by simpa using hA⟩
   | true =>
-    exact ⟨⟨' ', e :: rest, by simp, ⟨by decide, by decide⟩⟩, by simp [nextIsAngle, skipLC_cons_ne]⟩
+    exact ⟨Or.inr ⟨' ', e :: rest, by simp, ⟨by decide, by decide⟩⟩, by simp [nextIsAngle, skipLC_cons_ne]⟩
 
 theorem loop_tail (tail : List Char) (h : TailOk tail) (b : Builder) (fuel : Nat) :
     parseSimpleLoop (fuel + 1) b tail = some (b, tail) := by
-  obtain ⟨o, r, ht, hp⟩ := lexToken_tail tail h
+  rcases lexToken_tail tail h with rfl | ⟨o, r, ht, hp⟩
+  · exact loop_eof b fuel
   have hr : parseRedir tail = some (none, tail) := by
     unfold parseRedir
     rw [ht]
@@ -63,7 +70,7 @@ theorem nextOk_after_tail (ps : List Piece) (tail : List Char) (h : NextOk tail)
   cases ps with
   | nil => simpa [afterPiece, printPieces, joinWith] using h
   | cons q qs =>
-    exact ⟨⟨' ', printPieces (q :: qs) ++ tail, by simp [afterPiece], ⟨by decide, by decide⟩⟩, by
+    exact ⟨Or.inr ⟨' ', printPieces (q :: qs) ++ tail, by simp [afterPiece], ⟨by decide, by decide⟩⟩, by
       simp [afterPiece, nextIsAngle, skipLC_cons_ne]⟩
 
 theorem loop_pieces_tail (tail : List Char) (ht : StopTail tail) :
@@ -363,7 +370,8 @@ theorem pipeTail_rt (pc : CmdParser) (tail : List Char) (ht : EndsWithout tail [
   | nil =>
     intro fuel hf _
     obtain ⟨k, rfl⟩ : ∃ k, fuel = k + 1 := ⟨fuel - 1, by simp at hf; omega⟩
-    obtain ⟨o, r, hl, _⟩ := lexToken_tail tail ht.1
+    rcases lexToken_tail tail ht.1 with rfl | ⟨o, r, hl, _⟩
+    · simp [pipeRest, parsePipeTail, lexToken_eof, Token.isOp]
     have hb : o ≠ .bar := by
       have := ht.2 o r hl
       simpa using this
@@ -399,7 +407,7 @@ theorem pipeline_rt (pc : CmdParser) (neg : Bool) (c : Command) (cs : List Comma
     have hw : TokWordOk (digitsWord ['!']) (' ' :: (printCommand c ++ pipeRest cs tail)) :=
       litWord_tok '!' _ (by decide) [] (by simp)
     have hn : NextOk (' ' :: (printCommand c ++ pipeRest cs tail)) :=
-      ⟨⟨' ', _, rfl, ⟨by decide, by decide⟩⟩, by simp [nextIsAngle, skipLC_cons_ne]⟩
+      ⟨Or.inr ⟨' ', _, rfl, ⟨by decide, by decide⟩⟩, by simp [nextIsAngle, skipLC_cons_ne]⟩
     have hlt := lexToken_word _ _ hw hn sp
     rw [printWord_digitsWord] at hlt
     have hkw : isKeywordWord (digitsWord ['!']) = true := by decide
@@ -478,7 +486,8 @@ theorem andOrTail_rt (pc : CmdParser) (tail : List Char) (ht : EndsWithout tail 
   | nil =>
     intro fuel hf _
     obtain ⟨k, rfl⟩ : ∃ k, fuel = k + 1 := ⟨fuel - 1, by simp at hf; omega⟩
-    obtain ⟨o, r, hl, _⟩ := lexToken_tail tail ht.1
+    rcases lexToken_tail tail ht.1 with rfl | ⟨o, r, hl, _⟩
+    · simp [aoRest, parseAndOrTail, lexToken_eof, Token.isOp]
     have hb := ht.2 o r hl
     simp only [List.mem_cons, List.not_mem_nil, or_false, not_or] at hb
     simp [aoRest, parseAndOrTail, hl, Token.isOp, hb.1, hb.2]
@@ -725,7 +734,8 @@ theorem expectKw_kw (k : String) (hk : KwChars k.toList) (hne : k.toList ≠ [])
   simp [expectKw, ht, h1]
 
 theorem parseRedir_tail (tail : List Char) (h : TailOk tail) : parseRedir tail = some (none, tail) := by
-  obtain ⟨o, r, ht, hp⟩ := lexToken_tail tail h
+  rcases lexToken_tail tail h with rfl | ⟨o, r, ht, hp⟩
+  · simp [parseRedir, parseRedirBody, lexToken_eof]
   unfold parseRedir
   rw [ht]
   exact parseRedirBody_plain none _ o r ht hp
@@ -741,7 +751,7 @@ theorem nextOk_redirsSp (rs : List Redir) (tail : List Char) (ht : TailOk tail) 
   cases rs with
   | nil => simpa [printRedirsSp] using nextOk_tail tail ht
   | cons r rs =>
-    exact ⟨⟨' ', printRedir r ++ (printRedirsSp rs ++ tail), by simp [printRedirsSp], ⟨by decide, by decide⟩⟩, by
+    exact ⟨Or.inr ⟨' ', printRedir r ++ (printRedirsSp rs ++ tail), by simp [printRedirsSp], ⟨by decide, by decide⟩⟩, by
       simp [printRedirsSp, nextIsAngle, skipLC_cons_ne]⟩
 
 theorem parseRedirs_rt (tail : List Char) (ht : TailOk tail) :
@@ -845,7 +855,7 @@ theorem grouping_rt (pc : CmdParser) (l : List Item) (hl : l ≠ []) (tail : Lis
       "{".toList ++ ' ' :: (printList true l ++ ' ' :: ("}".toList ++ tail)) := by
     simp [printCompound, str]
   have hnx : NextOk (' ' :: (printList true l ++ ' ' :: ("}".toList ++ tail))) :=
-    ⟨⟨' ', _, rfl, ⟨by decide, by decide⟩⟩, by simp [nextIsAngle, skipLC_cons_ne]⟩
+    ⟨Or.inr ⟨' ', _, rfl, ⟨by decide, by decide⟩⟩, by simp [nextIsAngle, skipLC_cons_ne]⟩
   obtain ⟨t, ht, hkw, _, _⟩ := lexToken_kw' "{" kw_lbrace _ hnx sp
   have e1 : t.isKw "{" = true := by rw [hkw]; decide
   have hl' := listThenKw_rt pc "}" kw_rbrace l hl tail hn h
@@ -879,7 +889,7 @@ theorem doClause_rt (pc : CmdParser) (l : List Item) (hl : l ≠ []) (tail : Lis
     parseDoClause pc (' ' :: ("do".toList ++ ' ' :: (printList true l ++ ' ' :: ("done".toList ++ tail)))) =
       some (some l, tail) := by
   have hnx : NextOk (' ' :: (printList true l ++ ' ' :: ("done".toList ++ tail))) :=
-    ⟨⟨' ', _, rfl, ⟨by decide, by decide⟩⟩, by simp [nextIsAngle, skipLC_cons_ne]⟩
+    ⟨Or.inr ⟨' ', _, rfl, ⟨by decide, by decide⟩⟩, by simp [nextIsAngle, skipLC_cons_ne]⟩
   have h1 := expectKw_kw "do" kw_do.chars kw_do.ne kw_do.kw _ hnx true
   simp only [if_true, List.singleton_append] at h1
   have h2 := listThenKw_rt pc "done" kw_done l hl tail hn h
@@ -895,7 +905,7 @@ theorem while_rt (pc : CmdParser) (isWhile : Bool) (c b : List Item) (hc : c ≠
       some (some (if isWhile then .whileLoop c b else .untilLoop c b), tail) := by
   have hnx : NextOk (' ' :: (printList true c ++ ' ' :: ("do".toList ++ ' ' ::
       (printList true b ++ ' ' :: ("done".toList ++ tail))))) :=
-    ⟨⟨' ', _, rfl, ⟨by decide, by decide⟩⟩, by simp [nextIsAngle, skipLC_cons_ne]⟩
+    ⟨Or.inr ⟨' ', _, rfl, ⟨by decide, by decide⟩⟩, by simp [nextIsAngle, skipLC_cons_ne]⟩
   have hc1 := fun f hf => h1 true (fun e => absurd e hc) f hf
   simp only [if_true, List.singleton_append] at hc1
   have hd := doClause_rt pc b hb tail hn h2
@@ -934,7 +944,7 @@ theorem while_rt (pc : CmdParser) (isWhile : Bool) (c b : List Item) (hc : c ≠
 
 
 theorem nextOk_blank (x : List Char) : NextOk (' ' :: x) :=
-  ⟨⟨' ', x, rfl, ⟨by decide, by decide⟩⟩, by simp [nextIsAngle, skipLC_cons_ne]⟩
+  ⟨Or.inr ⟨' ', x, rfl, ⟨by decide, by decide⟩⟩, by simp [nextIsAngle, skipLC_cons_ne]⟩
 
 theorem expectKw_other (k k' : String) (hk : Kw k) (hne : k'.toList ≠ k.toList) (next : List Char)
     (hn : NextOk next) (sp : Bool) :
@@ -1091,7 +1101,9 @@ theorem parseCommand_simple (n : Nat) (c : SimpleCommand) (tail : List Char) (ht
   have hp := parseSimple_tail c tail ht h sp
     (((if sp then [' '] else []) ++ (printSimple c ++ tail)).length + 2) (by
       simp only [List.length_append]; omega)
-  obtain ⟨o, r, hl, hpl⟩ := lexToken_tail tail ht
+  rcases lexToken_tail tail ht with rfl | ⟨o, r, hl, hpl⟩
+  · simp only [parseCommand, hp, lexToken_eof, Token.isOp]
+    simp
   have ho : o ≠ .openParen := by
     intro e; subst e; revert hpl; decide
   simp only [parseCommand, hp, hl, Token.isOp]
@@ -1221,7 +1233,7 @@ theorem endsWithout_of (tail : List Char) (ht : TailOk tail) (o : Op) (r : List 
   exact ho
 
 theorem tailOk_cons (e : Char) (rest : List Char) (he : TermOk e) : TailOk (e :: rest) :=
-  ⟨false, e, rest, by simp, he⟩
+  Or.inr ⟨false, e, rest, by simp, he⟩
 
 theorem ends_semi (tail : List Char) (h : ListTail tail) (bad : List Op) (hb : ∀ x ∈ bad, x ∈ contOps) :
     EndsWithout (';' :: tail) bad :=
@@ -1242,18 +1254,18 @@ theorem ends_aoRest (r : AndOrRest) (rs : List AndOrRest) (tail : List Char) :
   obtain ⟨isAnd, p⟩ := r
   cases isAnd with
   | true =>
-    exact endsWithout_of _ ⟨true, '&', '&' :: ' ' :: (printPipeline p ++ aoRest rs tail), by simp [aoRest],
-      Or.inr (Or.inl rfl)⟩ _ _
+    exact endsWithout_of _ (Or.inr ⟨true, '&', '&' :: ' ' :: (printPipeline p ++ aoRest rs tail), by simp [aoRest],
+      Or.inr (Or.inl rfl)⟩) _ _
       (by simpa [aoRest] using lexToken_andand (printPipeline p ++ aoRest rs tail)) _ (by decide)
   | false =>
-    exact endsWithout_of _ ⟨true, '|', '|' :: ' ' :: (printPipeline p ++ aoRest rs tail), by simp [aoRest],
-      Or.inr (Or.inr (Or.inl rfl))⟩ _ _
+    exact endsWithout_of _ (Or.inr ⟨true, '|', '|' :: ' ' :: (printPipeline p ++ aoRest rs tail), by simp [aoRest],
+      Or.inr (Or.inr (Or.inl rfl))⟩) _ _
       (by simpa [aoRest] using lexToken_barbar (printPipeline p ++ aoRest rs tail)) _ (by decide)
 
 /-- ` | …` after a command -/
 theorem tailOk_pipeRest (d : Command) (ds : List Command) (tail : List Char) :
     TailOk (pipeRest (d :: ds) tail) :=
-  ⟨true, '|', ' ' :: (printCommand d ++ pipeRest ds tail), by simp [pipeRest], Or.inr (Or.inr (Or.inl rfl))⟩
+  Or.inr ⟨true, '|', ' ' :: (printCommand d ++ pipeRest ds tail), by simp [pipeRest], Or.inr (Or.inr (Or.inl rfl))⟩
 
 theorem tailOk_aoRest (r : AndOrRest) (rs : List AndOrRest) (tail : List Char) :
     TailOk (aoRest (r :: rs) tail) := (ends_aoRest r rs tail).1
